@@ -480,10 +480,18 @@ def r6_ensemble_copy(chk):
     chk.require(bool(in_arm), "ConformerEnsemble.__init__: copy branch not found")
     arm = in_arm[0]
     for cont, acc in (("_coords", "coords"), ("_atomic_charges", "atomic_charges"), ("_weights", "weights")):
-        st = [s for s in in_arm if ({f"self.{cont}", f"self.{acc}"} & stored_paths(s))]
+        st = [s for s in in_arm if ({f"self.{cont}", f"self.{acc}", f"self.{cont}[]", f"self.{acc}[]"} & stored_paths(s))]
+
+        def fills(s_):
+            """`self._coords[:] = other.coords`: the values are copied into this object's own (freshly allocated) table"""
+            t_ = s_.targets[0]
+            return isinstance(t_, ast.Subscript) and norm(t_.value) in (f"self.{cont}", f"self.{acc}") and isinstance(t_.slice, ast.Slice) and t_.slice.lower is None \
+                and t_.slice.upper is None and norm(s_.value) in (f"{src}.{acc}", f"{src}.{cont}", f"np.asarray({src}.{acc})", f"np.array({src}.{acc})") \
+                and any(allocates(x) for x in st if x is not s_ and getattr(x, "lineno", 0) < getattr(s_, "lineno", 0))
+
         def copies(s_):
             return norm(s_.value) in (f"np.array({src}.{acc})", f"np.array({src}.{cont})", f"{src}.{acc}.copy()", f"np.copy({src}.{acc})", f"np.array({src}.{acc}, copy=True)") \
-                or (f"self.{acc}" in stored_paths(s_) and norm(s_.value) in (f"{src}.{acc}",))
+                or (f"self.{acc}" in stored_paths(s_) and norm(s_.value) in (f"{src}.{acc}",)) or fills(s_)
 
         def allocates(s_):
             return isinstance(s_.value, ast.Call) and (call_name(s_.value) or "").split(".")[-1] in ("full", "zeros", "ones", "empty") and src + "." + acc not in norm(s_.value) and src + "." + cont not in norm(s_.value)
